@@ -143,76 +143,69 @@ func (p *Program) NewLabel() Label {
 
 // Assemble resolves all jump destinations to concrete instructions using the labels.
 // This method takes care of long jumps and resolves them by using early returns or unconditional long jumps.
+//
+// The jumps are resolved from the last to the first one. A bridge instruction (early return or
+// unconditional long jump) is always inserted directly behind the jump that needs it, so all
+// instructions behind the insertion point, which are the only ones resolved so far, keep their
+// distances to each other.
 func (p *Program) Assemble() ([]bpf.Instruction, error) {
-	for _, jump := range p.jumps {
+	for label, dest := range p.labels {
+		if len(dest) != 1 || int(dest[0]) >= len(p.instructions) {
+			return nil, fmt.Errorf("label %d must be set exactly once to an instruction", label)
+		}
+	}
+
+	for i := len(p.jumps) - 1; i >= 0; i-- {
+		jump := p.jumps[i]
+		for _, label := range []Label{jump.trueLabel, jump.falseLabel} {
+			if dest, found := p.labels[label]; !found {
+				return nil, fmt.Errorf("label %d is not set", label)
+			} else if dest[len(dest)-1] <= jump.index {
+				return nil, fmt.Errorf("backward jumps are not supported")
+			}
+		}
+
+		// Inserting a bridge for one label moves the destination of the other label,
+		// which might turn it into a long jump as well.
+		for p.bridge(jump, jump.trueLabel) || p.bridge(jump, jump.falseLabel) {
+		}
+
 		// This is safe since we are only accessing instructions that were inserted as bpf.JumpIf.
 		jumpInst := p.instructions[jump.index].(bpf.JumpIf)
-
-		skip, err := p.resolveLabel(jump, jump.trueLabel)
-		if err != nil {
-			return nil, err
-		}
-		jumpInst.SkipTrue = skip
-
-		skip, err = p.resolveLabel(jump, jump.falseLabel)
-		if err != nil {
-			return nil, err
-		}
-		jumpInst.SkipFalse = skip
-
+		jumpInst.SkipTrue = uint8(p.computeSkipN(jump, jump.trueLabel))
+		jumpInst.SkipFalse = uint8(p.computeSkipN(jump, jump.falseLabel))
 		if jumpInst.SkipTrue == 0 && jumpInst.SkipFalse == 0 {
 			return nil, fmt.Errorf("useless jump found")
 		}
-
 		p.instructions[jump.index] = jumpInst
 	}
 
 	return p.instructions, nil
 }
 
-// resolveLabel resolves the label to a short jump.
-func (p *Program) resolveLabel(jump JumpIf, label Label) (uint8, error) {
-	dest := p.labels[label]
+// bridge inserts an early return or an unconditional long jump directly behind the jump,
+// if the label is too far away for a conditional jump. It returns true if an instruction was inserted.
+func (p *Program) bridge(jump JumpIf, label Label) bool {
 	skipN := p.computeSkipN(jump, label)
-
-	for skipN < 0 {
-		dest = dest[1:]
-		if len(dest) == 0 {
-			return 0, fmt.Errorf("backward jumps are not supported")
-		}
-		p.labels[label] = dest
-		skipN = p.computeSkipN(jump, label)
-	}
-
 	// BPF does not support long conditional jumps.
-	if skipN > math.MaxUint8 {
-		insertAfter := findInsertAfter(p.jumps, jump)
-
-		// If the jump destination is a return instruction, copy it and add an early return,
-		// if not, insert a long jump.
-		jumpDest := p.instructions[dest[0]]
-		if _, ok := jumpDest.(bpf.RetConstant); !ok {
-			jumpDest = bpf.Jump{Skip: uint32(skipN - int(insertAfter.index))}
-		}
-
-		insertIndex := p.insertAfter(insertAfter.index, jumpDest)
-		p.labels[label] = append([]Index{insertIndex}, dest...)
-		skipN = p.computeSkipN(jump, label)
+	if skipN <= math.MaxUint8 {
+		return false
 	}
-	return uint8(skipN), nil
-}
 
-// Inserts the instruction after the instruction indicated by index, which must come from p.jumps.
-func (p *Program) insertAfter(index Index, inst bpf.Instruction) Index {
-	// This is safe since we are only accessing instructions that were inserted as bpf.JumpIf.
-	jumpInst := p.instructions[index].(bpf.JumpIf)
-	p.instructions[index] = jumpInst
+	// If the jump destination is a return instruction, copy it and add an early return,
+	// if not, insert a long jump.
+	dest := p.labels[label]
+	jumpDest := p.instructions[dest[0]]
+	if _, ok := jumpDest.(bpf.RetConstant); !ok {
+		jumpDest = bpf.Jump{Skip: uint32(skipN)}
+	}
 
-	index++
+	index := jump.index + 1
 	p.instructions = append(p.instructions[:index+1], p.instructions[index:]...)
-	p.instructions[index] = inst
+	p.instructions[index] = jumpDest
 	p.updateIndices(index)
-	return index
+	p.labels[label] = append([]Index{index}, p.labels[label]...)
+	return true
 }
 
 // After inserting a new instruction into the instruction list, the indices are wrong.
@@ -233,26 +226,15 @@ func (p *Program) updateIndices(after Index) {
 	}
 }
 
-// Computes the number of instructions to skip by resolving the label.
-// It might be that the jump is a long jump.
+// Computes the number of instructions to skip to reach the closest destination of the label
+// behind the jump. It might be that the jump is a long jump.
 func (p *Program) computeSkipN(jump JumpIf, label Label) int {
-	dest := p.labels[label]
-	return int(dest[0]-jump.index) - 1
-}
-
-// To insert a new instruction into the instruction list, the furthest jump instruction within
-// a short jump is searched.
-// It is necessary to search a jump instruction to jump over the new inserted instruction
-// and do not disturb the program flow.
-func findInsertAfter(jumps []JumpIf, currentJump JumpIf) JumpIf {
-	insertAfter := currentJump
-	maxIndex := currentJump.index + 255
-	for _, jump := range jumps {
-		if jump.index < maxIndex {
-			insertAfter = jump
+	for _, dest := range p.labels[label] {
+		if dest > jump.index {
+			return int(dest-jump.index) - 1
 		}
 	}
-	return insertAfter
+	return -1
 }
 
 // Calculate the index of the current instruction.
